@@ -16,7 +16,7 @@ import operator
 import z3
 
 from . import source
-from .values import (SV, CV, Opaque, EngineError, Imm, to_z, truth_z, ite, arith, compare, logic,
+from .values import (SV, CV, XV, Opaque, EngineError, Imm, to_z, truth_z, ite, arith, compare, logic,
                      snot, sabs, PV, to_pv, fresh, B, I, R, coerce, is_sym)
 from .containers import PDict, PSet, p_and, p_not, p_sv, _p
 
@@ -280,6 +280,7 @@ class Ctx:
         self.called = {}          # function key -> count (interpreted from source)
         self.summarised = {}      # function key -> count (replaced by a contract summary)
         self.facts = []           # assumptions of the harness (requires)
+        self.axioms = []          # subset of facts valid for every row (instantiable for other rows)
         self.solver_timeout_ms = solver_timeout_ms
         self.steps = 0
         self.ghost = {}
@@ -291,7 +292,26 @@ class Ctx:
     def side_obligation(self, label, goal, note=""):
         """an obligation the executed code must satisfy for the engine's reading of it to be right
         (e.g. two compressed arrays combined position-wise must be compressed by the same mask)"""
-        self.side.append((label, self.hyps(), goal, note))
+        hyps = self.hyps()
+        if self.merge_mode and self.merge_guards:
+            # emitted while a branch is executed speculatively: the obligation holds under the branch guards
+            hyps = list(hyps) + [g for g in self.merge_guards if not isinstance(g, bool)]
+        self.side.append((label, hyps, goal, note))
+
+    def global_obligation(self, label, space, goal, note=""):
+        """an obligation about *every* row of a row space (not only the generic row of this path, whose properties the path
+        condition may have fixed): the generic index is replaced by a fresh one in the goal; the axioms of the path
+        (facts valid for every row, e.g. the meaning of any()/all() decisions) are instantiated for it"""
+        k = z3.Int(f"k@{space.name}")
+        hyps = list(self.hyps()) + [z3.substitute(ax, (space.i, k)) for ax in self.axioms] + [k >= 0, k < space.n]
+        if self.merge_mode and self.merge_guards:
+            hyps += [g for g in self.merge_guards if not isinstance(g, bool)]
+        self.side.append((label, hyps, z3.substitute(goal, (space.i, k)), note))
+
+    def axiom(self, z):
+        """a fact valid for every row (mentions the generic row index as a universally quantified variable)"""
+        self.facts.append(z)
+        self.axioms.append(z)
 
     def assume(self, z):
         if isinstance(z, SV):
@@ -799,7 +819,7 @@ class Interp:
         if op in ("&", "|", "^") and (isinstance(a, SV) or isinstance(b, SV)):
             return logic(op, a, b)
         if isinstance(a, (SV, CV)) or isinstance(b, (SV, CV)):
-            if isinstance(a, (SV, CV, int, float, bool, complex)) and isinstance(b, (SV, CV, int, float, bool, complex)):
+            if isinstance(a, (SV, CV, XV, int, float, bool, complex)) and isinstance(b, (SV, CV, XV, int, float, bool, complex)):
                 return arith(op, a, b)
             if hasattr(a, "dtype") or hasattr(b, "dtype"):
                 # numpy scalar mixed with symbolic
@@ -1952,6 +1972,18 @@ class Interp:
         return True
 
     def ex_If(self, node, env):
+        rk = self.rank_stmts.get(id(node))
+        if rk is not None:
+            loop, name, f, pz, fired, space = rk
+            c = self.ev(node.test, env)
+            cur = env.local.get(name)
+            if not (isinstance(cur, SV) and z3.eq(cur.z, f(space.i))) or not z3.eq(z3.simplify(truth_z(c)), pz) or fired[0]:
+                raise EngineError(f"rank counter {name}: loop does not follow the counter idiom")
+            if self.ctx.merge_mode:
+                raise CannotMerge()
+            fired[0] = True
+            env.local[name] = SV(z3.If(pz, f(space.i) + 1, f(space.i)))
+            return
         c = self.ev(node.test, env)
         cs = self.truth_sv(c)
         if isinstance(cs, bool):
@@ -1979,6 +2011,7 @@ class Interp:
         self.ctx.merge_mode += 1
         env.merging += 1
         undo_mark = len(self.ctx.undo)
+        side_mark = len(self.ctx.side)
         try:
             try:
                 lt = lf = None
@@ -2038,6 +2071,7 @@ class Interp:
                     print("---- merge abandoned for if at", getattr(body[0], "lineno", "?") if body else "?")
                     traceback.print_exc(limit=-6)
                 env.local = saved
+                del self.ctx.side[side_mark:]      # the branches are executed again (forked): their obligations are emitted then
                 while len(self.ctx.undo) > undo_mark:
                     d, k, old = self.ctx.undo.pop()
                     if old is None:
@@ -2061,14 +2095,26 @@ class Interp:
             if node.orelse:
                 raise EngineError("for/else over rows")
             space, mask, e = it.generic_row()
-            if mask is not True:
-                self.ctx.assume(mask)
+            if mask is not True and not z3.is_true(z3.simplify(mask)):
+                # rows outside the mask are not visited: the generic row is either inside (body executed) or outside
+                if not self.ctx.decide(mask, tag=f"generic row inside the loop range @{node.lineno}"):
+                    return
             self.assign(node.target, e, env)
             self.ctx.ghost.setdefault("generic_loops", []).append(node.lineno)
+            counters = self._rank_counters(node, env, space)
             try:
                 self.ex_block(node.body, env)
             except (_Break, _Continue):
                 raise EngineError("break/continue in a loop over rows")
+            finally:
+                for st in list(self.rank_stmts):
+                    if self.rank_stmts[st][0] is node:
+                        del self.rank_stmts[st]
+            for name, (f, pz, fired) in counters.items():
+                if not fired[0]:
+                    raise EngineError(f"rank counter {name}: increment statement not reached in the generic iteration")
+                from .arrays import _key
+                env.local[name] = SV(z3.Int(f"count[{space.name},{_key(pz)}]"))
             return
         if (isinstance(it, (Opaque, SV)) or getattr(it, "opaque_like", False)) and getattr(self, "opaque_loops", False):
             if not isinstance(it, Opaque):
@@ -2097,6 +2143,51 @@ class Interp:
             self._settle_partial_return(env)
         if not broke:
             self.ex_block(node.orelse, env)
+
+    rank_stmts = {}
+
+    def _rank_counters(self, node, env, space):
+        """counters of the form  `c = 0; for i in range(len(m)): ...; if m[i]: c += 1`  : inside the generic iteration c is
+        rank_m(i), the number of earlier positions satisfying m (the position of row i in an array compressed by m)"""
+        from .tabletheory import rank_fn
+        out = {}
+        if self.rank_stmts is Interp.rank_stmts:
+            self.rank_stmts = {}
+        for st in node.body:
+            if isinstance(st, ast.If) and not st.orelse and len(st.body) == 1 and isinstance(st.body[0], ast.AugAssign) \
+                    and isinstance(st.body[0].op, ast.Add) and isinstance(st.body[0].target, ast.Name) \
+                    and isinstance(st.body[0].value, ast.Constant) and st.body[0].value.value == 1:
+                name = st.body[0].target.id
+                cur = env.local.get(name)
+                if not (isinstance(cur, int) and not isinstance(cur, bool) and cur == 0):
+                    continue
+                # the counter must not be assigned anywhere else in the loop
+                def _binds(t):
+                    if isinstance(t, ast.Name):
+                        return t.id == name
+                    if isinstance(t, (ast.Tuple, ast.List)):
+                        return any(_binds(e) for e in t.elts)
+                    if isinstance(t, ast.Starred):
+                        return _binds(t.value)
+                    return False
+                others = [n for n in ast.walk(node) if (isinstance(n, (ast.AugAssign, ast.AnnAssign)) and n is not st.body[0] and _binds(n.target))
+                          or (isinstance(n, ast.Assign) and any(_binds(t) for t in n.targets))
+                          or (isinstance(n, (ast.For, ast.comprehension)) and _binds(n.target))
+                          or (isinstance(n, ast.NamedExpr) and _binds(n.target))]
+                if others:
+                    continue
+                self.ctx.merge_mode += 1
+                try:
+                    c = self.ev(st.test, env)
+                finally:
+                    self.ctx.merge_mode -= 1
+                pz = z3.simplify(truth_z(c))
+                f = rank_fn(self, space, pz)
+                env.local[name] = SV(f(space.i))
+                fired = [False]
+                out[name] = (f, pz, fired)
+                self.rank_stmts[id(st)] = (node, name, f, pz, fired, space)
+        return out
 
     def _assign_opaque(self, target, val, env):
         if isinstance(target, (ast.Tuple, ast.List)):
